@@ -73,3 +73,9 @@ Definition c09_ok (interval : Z) (times values : list Z) (started dropped : Z) (
       let refusable := zsum (map (Z.max 0) (skipn (length values - Z.to_nat (late + 1)) values)) in
       (started + dropped <=? total) && (total - refusable <=? started + dropped)))
   end.
+
+(* a stage of a config file: constant k per interval, evaluating for at most dur after its first
+   evaluation; got = iterations observed to start while the stage's parameter was set; slack =
+   iterations of the stage before that may run late *)
+Definition stage_count_ok (k interval dur got slack : Z) : bool :=
+  got <=? k * (1 + dur / interval) + slack.
